@@ -1,4 +1,4 @@
-From AQ Require Import lib.Base model.H3Parse proofs.H3Chunk proofs.H3Split proofs.H3Loop proofs.H3Recv proofs.H3Fin proofs.H3Uni proofs.H3Table proofs.H3Push proofs.H3UniN.
+From AQ Require Import lib.Base model.H3Parse proofs.H3Chunk proofs.H3Split proofs.H3Loop proofs.H3Recv proofs.H3Fin proofs.H3Uni proofs.H3Table proofs.H3Push proofs.H3Hdr proofs.H3UniN.
 
 (* On the code as pinned, the events of a request stream depend on the chunking: three byte strings for which
    whole delivery and a two-chunk delivery give different normalised events (end-of-stream marker). *)
@@ -46,6 +46,26 @@ Theorem interleaving_independent_push_promise :
   run fx c0 [(QStream sid data fin, OB); (QStream es encdata false, O2)].
 Proof. exact pp_interleave. Qed.
 Print Assumptions interleaving_independent_push_promise.
+
+(* The same for a HEADERS frame (request, response or trailers; request or push stream behind its push id; client or
+   server): the stream [sid] is new or between two frames where HEADERS are allowed (hd_ready: headers_recv_state is not
+   AFTER_TRAILERS -- there the frame is refused before the decoder is asked), the delivery starts with a complete HEADERS
+   frame followed by ANY bytes (body, trailers, further frames, garbage), with or without FIN.  "Including when header
+   compression makes a request wait for the encoder stream": the events (HeadersReceived with its end-of-stream flag,
+   the body, the close code for bad headers / content-length) do not depend on which stream is delivered first. *)
+Theorem interleaving_independent_headers :
+  forall fx, fx_trunc fx = true -> fx_endmark fx = true -> fx_pushblock fx = true ->
+  forall c0 sid es data block rest fin encdata encpayload OA OB O2,
+  c_done c0 = false -> is_uni sid = false -> is_uni es = true ->
+  hd_ready c0 sid -> enc_ready c0 es encdata encpayload ->
+  frame_at data 1 block rest ->
+  o_enc OA encpayload = EUnblocked [] ->
+  o_dec OB sid block = DBlocked ->
+  o_enc O2 encpayload = EUnblocked [sid] -> o_resume O2 sid = o_dec O2 sid block -> o_dec O2 sid block <> DBlocked ->
+  run fx c0 [(QStream es encdata false, OA); (QStream sid data fin, O2)] =
+  run fx c0 [(QStream sid data fin, OB); (QStream es encdata false, O2)].
+Proof. exact hd_interleave. Qed.
+Print Assumptions interleaving_independent_headers.
 
 (* the refuting inputs on the model of the patched code: same outcome for both deliveries *)
 Theorem chunking_witnesses_agree_when_fixed :
